@@ -288,6 +288,31 @@ def ring(ctx):
                                             got, CG.MOD, a, b, (" cf=%d" % cin) if cls else "", want)
                                         raise StopIteration
                         decided += 1
+                        # a sign-extended narrow immediate: the bits above it must follow its sign. Evaluated modulo
+                        # 2^(N+4) at destination / immediate points on both sides of every boundary
+                        sexk = [kd for kd in oc["kinds"] if "sex" in kd]
+                        if sexk and mn in RING_REF and not (mn == "Imul"):
+                            nb = int(sexk[0][3:sexk[0].index("sex")])
+                            kb = nb + 4
+                            top = (1 << kb) - 1
+                            imms = [1, (1 << (nb - 1)) - 1, top & ~((1 << (nb - 1)) - 1), top, top - 0x54]
+                            dsts = [0, 1, (1 << nb) - 1, 1 << nb, 0xABC % (1 << kb), top]
+                            for a in dsts:
+                                for b in imms:
+                                    env = {}
+                                    for x, k in roles.items():
+                                        val = a if k == 0 else b
+                                        env[x] = val
+                                        env[A.W(x, 64)] = val
+                                    got = CG.eval_k(v, env, kb, I, o.path)
+                                    cin = cls["CF"] if cls else 0
+                                    want = ref(a, b, cin) % (1 << kb)
+                                    ck.cov["sign_extension_points"] = ck.cov.get("sign_extension_points", 0) + 1
+                                    if got != want:
+                                        bad = bad or ("result = %#x (mod 2^%d) for d=%#x imm=%#x%s, architecture %#x: the immediate is "
+                                                      "not sign-extended to the operand size" % (
+                                                          got, kb, a, b, (" cf=%d" % cin) if cls else "", want))
+                                        raise StopIteration
                     except CG.Undecided as e:
                         why_und = str(e)
                     except StopIteration:
